@@ -92,6 +92,8 @@ inductive Cls where
   -- chance.py / markov.py
   | white | brown | coin | randomWalk | choice | sample | shuffle | shuffleInput | skip | flipFlop | switchOne
   | randomExponential | randomImpulseSequence | markov
+  -- recursive resolution by `Pattern.value` (misc group): `PConstant(<pattern>)`, a tuple containing patterns
+  | constP | tupP
   deriving DecidableEq, Repr, Inhabited
 
 /-- A pattern object. -/
